@@ -25,9 +25,11 @@ theorem C10_total_verifyPageChecksum (ck : Bytes → Nat → Nat) (page : Bytes)
     ∃ r, verifyPageChecksum ck page bn = .ok r :=
   verifyPageChecksum_total ck page bn
 
-/-- computePageChecksum: the copy it works on always has 8192 bytes = 2048 whole words, whatever the
-length of the input — the writes to bytes 8 and 9 and every 4-byte read are in range. -/
-theorem C10_total_computePageChecksum (page : Bytes) :
+/-- computePageChecksum works on a copy that always has 8192 bytes = 2048 whole 4-byte words, whatever the length of the
+input: so its constant-index writes (bytes 8 and 9) and its reads `pageCopy[i:i+4]` for `i = 0, 4, … 8188` are in range.
+(A length fact about the copy, not a totality statement: the checksum function itself is the parameter `ck` of
+`verifyPageChecksum`.) -/
+theorem C10_computePageChecksum_copy_length (page : Bytes) :
     (pageCopy page).length = 8192 ∧ (words32 (pageCopy page)).length = 2048 := by
   refine ⟨pageCopy_length page, ?_⟩
   rw [words32_length, pageCopy_length]
